@@ -1,6 +1,7 @@
 """C17 -- interval-driven audio extraction keeps and drops exactly the marked samples."""
 import math
 import os
+import random
 import shutil
 import wave
 from .. import core
@@ -88,6 +89,7 @@ def generate(tier, rng):
         prior = _intervals(rng, nt, 2, True, dy) if rng.random() < 0.5 else None
         cases.append({"op": "readat", "w": w, "rate": rate, "s": s, "keep": keep, "del": dele, "rep": rep, "prior": prior,
                       "scale": ["ticks", K]})
+    multi = _multichannel(tier, rng)
     for _ in range(160 if tier == "quick" else 3000):
         w = rng.choice([1, 2, 4])
         rate = rng.choice([8, 16, 1000, 8000, 44100])
@@ -96,6 +98,27 @@ def generate(tier, rng):
     for _ in range(100 if tier == "quick" else 3000):
         cases.append({"op": "gen", "w": rng.choice([1, 2, 4]), "rate": rng.choice([8, 16, 1000, 8000, 44100]),
                       "n": rng.randint(0, 50), "off": rng.choice([0, 0, 0.25, -0.25, 0.4]), "s": [], "scale": ["ticks", K]})
+    return cases + multi
+
+
+def _multichannel(tier, rng):
+    """readFramesAtTimes on a file object with 2 or 3 channels (the module-level function takes any wave reader): a frame
+    of ch samples is one unit of ch*w bytes, given to the model as one number; no replacement (the generator is mono).
+    Uses its own PRNG stream so that the other cases are what they were before this family existed."""
+    rng = random.Random(rng.random())
+    cases = []
+    for _ in range(90 if tier == "quick" else 3000):
+        w = rng.choice([1, 2, 4])
+        ch = rng.choice([2, 2, 3])
+        rate = rng.choice(RATES)
+        s = c16._samples(rng, w * ch, rng.choice([1, 2, rng.randint(3, 40)]))
+        nt = len(s) * K
+        dy = rate in (8, 16)
+        l = _intervals(rng, nt, 4, rng.random() < 0.5, dy)
+        keep, dele = (l, []) if rng.random() < 0.5 else ([], l)
+        prior = _intervals(rng, nt, 2, True, dy) if rng.random() < 0.3 else None
+        cases.append({"op": "readat", "w": w, "ch": ch, "rate": rate, "s": s, "keep": keep, "del": dele, "rep": False,
+                      "prior": prior, "scale": ["ticks", K]})
     return cases
 
 
@@ -108,10 +131,10 @@ def _t(tick, rate):
     return tick / (K * rate)
 
 
-def _write_wav(fn, s, w, rate):
+def _write_wav(fn, s, w, rate, ch=1):
     wf = wave.open(fn, "w")
-    wf.setparams((1, w, rate, len(s), "NONE", "not compressed"))
-    wf.writeframes(c16._enc(s, w))
+    wf.setparams((ch, w, rate, len(s), "NONE", "not compressed"))
+    wf.writeframes(c16._enc(s, w * ch))
     wf.close()
 
 
@@ -262,10 +285,12 @@ def run(case):
     try:
         if op == "readat":
             w, rate, s = case["w"], case["rate"], case["s"]
+            ch = case.get("ch", 1)
+            fw = w * ch
             fn = core.fname(os.path.join(d, "a.wav"))
 
             def h():
-                _write_wav(fn, s, w, rate)
+                _write_wav(fn, s, w, rate, ch)
                 wf = wave.open(fn, "r")
                 try:
                     gen = audio.AudioGenerator(w, rate)
@@ -277,7 +302,7 @@ def run(case):
                                                 gen.generateSilence if case["rep"] else None)
                 finally:
                     wf.close()
-                return [int.from_bytes(b[i:i + w], "little", signed=True) for i in range(0, len(b), w)]
+                return [int.from_bytes(b[i:i + fw], "little", signed=True) for i in range(0, len(b), fw)]
             return core.run_guarded(h)
         if op == "split":
             return core.run_guarded(lambda: _split_case(case, d))
@@ -341,7 +366,7 @@ def classify(case, r):
     out = "err:" + r["err"] if "err" in r else "ok"
     if case["op"] in ("keepdel", "readat"):
         which = "both" if case["keep"] and case["del"] else "keep" if case["keep"] else "delete" if case["del"] else "none"
-        return "%s/%s/%s%s" % (case["op"], which, "rep/" if case.get("rep") else "", out)
+        return "%s%s/%s/%s%s" % (case["op"], "/%dch" % case["ch"] if case.get("ch", 1) > 1 else "", which, "rep/" if case.get("rep") else "", out)
     return "%s/%s" % (case["op"], out)
 
 
